@@ -241,7 +241,7 @@ def run(tier):
         CR.rings(chk, tier, NMAX[tier])
     chk.assumptions += [
         'values: declared alphabets (ref/arith_catalogue.py num_full/num_core/moduli/elems/red_inputs), not all 2^(64n) operands; lengths, aliasings, editions, moduli classes are enumerated completely',
-        'cross product: complete over all operands while it has at most %d tuples (always for lengths <= 2 of binary functions), otherwise pairwise-full / one-operand-full against the core alphabet of the others' % CC.LIMIT[tier],
+        'cross product: complete over all operands while it has at most %d tuples (always for lengths <= 2 of binary functions), otherwise pairwise-full / one-operand-full against the core alphabet of the others' % CC.LIMIT[tier][0],
         'borrow words of zzSubW/zzSubW2 (n = 0) and zzSubMulW are judged by the identity c - B^n * borrow == a - w resp. b - a * w (zz.h writes the predicate; both agree whenever the borrow is 0/1)',
         'scratch stacks are exactly xxx_deep() octets followed by a harness-owned guard zone whose modification is reported as stack-overrun',
         'ring element aliasing c==a / c==b of multiplicative qr functions is taken as permitted (qr.h warning: no disjoint-or-equal assumption is made for them)',
